@@ -134,6 +134,14 @@ RenameKeys(k, nk) ==       \* ds.rename_keys({k: nk}): the renamed variable move
   /\ UNCHANGED <<objs, dsaxes, direct>>
   /\ Record("rename_keys", [k |-> k, n |-> nk], TRUE)
 
+\* ... onto a key that exists: that variable is replaced (and takes with it the axes only it used)
+RenameKeysOnto(k, nk) ==
+  /\ Bound /\ HasKey(k) /\ HasKey(nk) /\ nk # k
+  /\ LET vs == Append(SelectSeq(vars, LAMBDA v : v.key # k /\ v.key # nk), [VarOf(k) EXCEPT !.key = nk])
+         ax2 == Collect(dsaxes, Rng(VarOf(nk).axes), vs)
+     IN vars' = vs /\ dsaxes' = ax2 /\ objs' = Release(objs, ax2) /\ direct' = direct \cap Rng(ax2)
+  /\ Record("rename_keys", [k |-> k, n |-> nk], TRUE)
+
 (* ---------- relabelling ---------- *)
 SetAxisValues(d, labs) ==  \* ds.set_axis(labs, axis=d)
   /\ Bound /\ HasName(d) /\ Len(labs) = Len(objs[IdOf(d)].labs)
@@ -204,7 +212,7 @@ ContinueOn(kind, args) ==
 AllNames == Base \cup {Alt(b) : b \in Base}
 Next ==
   \/ \E k \in Keys : \E c \in Candidates : SetVar(k, c)
-  \/ \E k \in Keys : DelVar(k) \/ RenameKeys(k, CHOOSE q \in Keys : q # k)
+  \/ \E k \in Keys : DelVar(k) \/ RenameKeys(k, CHOOSE q \in Keys : q # k) \/ RenameKeysOnto(k, CHOOSE q \in Keys : q # k)
   \/ \E k \in Keys : \E j \in 1..2 : HasKey(k) /\ j <= Len(VarOf(k).axes) /\ RenameViaVar(k, j, Alt(NameOf(VarOf(k).axes[j])))
   \/ \E d \in AllNames : RenameViaDs(d, Alt(d)) \/ RenameAxes(d, Alt(d))
   \/ \E d \in AllNames : HasName(d) /\ objs[IdOf(d)].labs \in LabVariants /\
